@@ -325,6 +325,74 @@ def run(ctx):
     # ---- R09.10
     ctx.rule('R09.10', 'no task keeps naming a removed worker: on_remove_worker finds the tasks being retracted from the lost worker by a scan of the whole task map')
     shared_rules.retracting_scan_whole_map(ctx, 'R09.10')
+    # ---- R09.11 container typestate: what can sit in Worker.assigned_tasks vs what its consumers assume
+    ctx.rule('R09.11', 'members of a worker\'s assigned_tasks set can be in every state written next to an insert_sn_task (Assigned, and Retracting for a redirected task) or reached from there without leaving the set (Running); a consumer that iterates the set and unwraps a state-partial accessor (Task::rv_id) must be total over those states')
+    # the code base states its own belief about the members: Worker::sanity_check walks assigned_tasks and accepts exactly
+    # the states whose arm does not panic
+    wsc = prog.body(WORKER + 'sanity_check')
+    member = set()
+    for nb_, t_, c_ in wsc.calls():
+        if nb_ in wsc.reachable() and (callee_decl(t_) or c_ or '').endswith('Iterator::next') and 'assigned_tasks' in local_field_sources(wsc, op_local(t_['args'][0]), through_mutation=False):
+            hs_ = loop_headers_containing(wsc, nb_)
+            if not hs_:
+                continue
+            for k_ in wsc.variant_flow(TRS):
+                for v_ in prog.variants(TRS):
+                    ent_, reg_ = wsc.arm_entries(TRS, {v_}, k_)
+                    if ent_ and any(hs_[0] in loop_headers_containing(wsc, e_) for e_ in ent_) and hs_[0] in wsc.reach_from(ent_):
+                        member.add(v_)
+    ctx.note('assigned_tasks_member_states', sorted(member))
+    ctx.ob('R09.11', 'assigned_tasks|member states stated by sanity_check', member == {'Assigned', 'Retracting', 'Running'},
+           f'states Worker::sanity_check accepts for a member of assigned_tasks: {sorted(member)}', wsc.loc())
+    # ... and Retracting members really arise: create_task_mapping inserts the task into the new target before it looks at
+    # its state, and its Retracting / Prefilled arms leave it (or put it) in Retracting
+    ctm_ = prog.body(T + 'scheduler::mapping::create_task_mapping')
+    ins_ = effect_blocks(prog, ctm_, E_W_INS)
+    retr_ = [bi_ for o_, b_, bi_, s_ in construct_sites(prog, TRS, 'Retracting') if b_.path == ctm_.path]
+    keeps_ = False
+    for k_ in ctm_.variant_flow(TRS):
+        ent_, reg_ = ctm_.arm_entries(TRS, {'Retracting'}, k_)
+        if reg_ and any(x in ctm_.reach_after(i_) for x in reg_ for i_ in ins_) and not any(b2 in reg_ for o_, b_, b2, s_ in construct_sites(prog, TRS, 'Assigned') if b_.path == ctm_.path):
+            keeps_ = True
+    ctx.ob('R09.11', 'create_task_mapping|redirected task is a Retracting member of its target', bool(ins_) and (keeps_ or any(x in ctm_.reach_after(i_) for x in retr_ for i_ in ins_)),
+           'create_task_mapping reserves the task on the new worker (insert_sn_task) and leaves / puts it in state Retracting until the source worker answers', ctm_.loc(sorted(ins_)[0]) if ins_ else ctm_.loc())
+    # state-partial accessors of Task that return Option
+    rvb = prog.body(TASK + '::rv_id')
+    some_v = set()
+    for o_, b_, bi_, s_ in construct_sites(prog, 'core::option::Option', 'Some'):
+        if b_.path == rvb.path:
+            some_v |= set(variants_at(rvb, TRS, bi_) or prog.variants(TRS))
+    ctx.ob('R09.11', 'Task::rv_id|defined on', some_v == {'Assigned', 'Running'}, f'rv_id() is Some exactly for {sorted(some_v)}', rvb.loc())
+    UNW_ = ('Option::unwrap', 'Option::expect')
+    ncons = 0
+    for p_, b_ in prog.bodies.items():
+        if not p_.startswith(T) or is_test_util(p_) or '::tests::' in p_:
+            continue
+        rvc = b_.call_blocks(TASK + '::rv_id')
+        for rb_ in rvc:
+            dl_ = b_.term[rb_]['d'][0]
+            unw = [x for x, t_, c_ in b_.calls() if x in b_.reachable() and (c_ or '').endswith(UNW_) and op_local(t_['args'][0]) is not None and dl_ in b_.derived_from(op_local(t_['args'][0]), through_mutation=False)]
+            if not unw:
+                continue
+            # does the task come from iterating assigned_tasks?  (the body itself, or the parent statement that feeds this closure to an adapter)
+            from_set = any('assigned_tasks' in local_field_sources(b_, l_, through_mutation=False) for l_ in range(1, len(b_.locals)) if 'TaskId' in b_.locals[l_][0])
+            if not from_set and b_.parent and b_.parent in prog.bodies:
+                pb_ = prog.bodies[b_.parent]
+                for x in pb_.reachable():
+                    for st_ in pb_.stmts(x):
+                        if st_['k'] == 'a' and st_['rv'][0] == 'agg' and st_['rv'][1][0] == 'closure' and norm(st_['rv'][1][1]) == b_.path:
+                            cl_ = st_['p'][0]
+                            for y, t2, c2 in pb_.calls():
+                                if y in pb_.reachable() and any(op_local(a) is not None and cl_ in pb_.derived_from(op_local(a), through_mutation=False) for a in t2['args']):
+                                    if any(op_local(a) is not None and 'assigned_tasks' in local_field_sources(pb_, op_local(a), through_mutation=False) for a in t2['args']):
+                                        from_set = True
+            if not from_set:
+                continue
+            ncons += 1
+            ctx.ob('R09.11', f'{owner_fn(prog, p_).split("::")[-1]}|assigned_tasks member -> rv_id().unwrap()', member <= some_v,
+                   f'a task taken from assigned_tasks may be in {sorted(member - some_v)} (a prefilled task redirected to this worker stays Retracting until the source answers), where rv_id() is None: the unwrap panics in the scheduler', b_.loc(unw[0]))
+    ctx.note('assigned_tasks_unwrapping_consumers', ncons)
+
     # ---- R09.6 / R09.7
     ctx.rule('R09.6', 'no panicking task lookup inside a loop whose body may remove tasks from the core (ids collected before the loop can be gone when their turn comes)')
     ctx.rule('R09.7', 'TaskQueue::remove asserts membership in one arm: every call site must be guarded by a test that implies the task is queue-resident (or no arm may diverge)')
